@@ -426,6 +426,18 @@ func runSub(pr *Prog, id string, rs *ruleSet, tier string) *Ledger {
 	return sub
 }
 
+// nestedFloors: the vacuity floors that apply to a property decided as an import: all of them except those of rules that
+// are themselves fed by imports (an import back into the active chain is skipped, so such a rule is legitimately empty).
+func nestedFloors(sub *Ledger, floors map[string]int) map[string]int {
+	out := map[string]int{}
+	for r, n := range floors {
+		if !sub.importFed[r] {
+			out[r] = n
+		}
+	}
+	return out
+}
+
 // activeRules: the properties whose rules are running (the one being decided and the chain of imports), so that two
 // properties can import each other's obligations without recursing.
 var activeRules = map[string]bool{}
@@ -436,6 +448,10 @@ func importObligations(p *Prog, l *Ledger, from, as string, keep func(o *Obligat
 		l.Infra("cannot import obligations of %s", from)
 		return 0
 	}
+	if l.importFed == nil {
+		l.importFed = map[string]bool{}
+	}
+	l.importFed[as] = true
 	if activeRules[from] {
 		return 0 // the importing chain started there: its obligations are already on the report
 	}
@@ -449,16 +465,16 @@ func importObligations(p *Prog, l *Ledger, from, as string, keep func(o *Obligat
 	}
 	sub := runSub(orig, from, rs, l.Tier)
 	if orig.Variant == "" && rc.repo != "" && len(sub.infraErrs) == 0 {
-		// (no vacuity floors in a nested run: rules fed by an import that the active chain skips are legitimately empty
-		// here; the importing rule has its own floor, and the imported property its own top-level run)
-		if open := sub.Unlisted(rc.verif, nil); len(open) > 0 {
+		// (in a nested run the vacuity floors of import-fed rules do not apply: an import back into the active chain is
+		// skipped, so such a rule is legitimately empty here)
+		if open := sub.Unlisted(rc.verif, nestedFloors(sub, rs.floors)); len(open) > 0 {
 			keepSet := loadHelperBaseline(rc.verif)
 			for k := range sub.claimed {
 				keepSet[k] = true
 			}
 			if pv, _, _ := variantFor(keepSet); pv != nil {
 				sv := runSub(pv, from, rs, l.Tier)
-				if len(sv.infraErrs) == 0 && len(sv.Unlisted(rc.verif, nil)) == 0 {
+				if len(sv.infraErrs) == 0 && len(sv.Unlisted(rc.verif, nestedFloors(sv, rs.floors))) == 0 {
 					l.Note("the obligations imported from %s were decided on the equivalent program variant (helpers not in helpers_baseline.txt inlined): %d were open on the program as written", from, len(open))
 					sub = sv
 				} else {
